@@ -266,14 +266,31 @@ class Body:
     debug: dict = field(default_factory=dict)
     blocks: dict = field(default_factory=dict)   # n -> list of stmts (last = terminator)
 
+def _const_header(ln):
+    """'const NAME: TYPE = {' / 'const NAME: TYPE = const V;' -> (name, type, rest) splitting at the first ': ' outside <...>"""
+    m = re.match(r'^(?:const|static) (?:mut )?', ln)
+    if not m: return None
+    i = m.end(); d = 0; j = i
+    while j < len(ln):
+        ch = ln[j]
+        if ch == '<': d += 1
+        elif ch == '>' and ln[j - 1] != '-': d -= 1
+        elif ch == ':' and d == 0 and ln[j:j + 2] == ': ' and ln[j - 1] != ':' : break
+        j += 1
+    if j >= len(ln): return None
+    name = ln[i:j]; rest = ln[j + 2:]
+    k = rest.rfind(' = ')
+    if k < 0: return None
+    return name, rest[:k], rest[k + 3:]
+
 def _parse_body(name, header, lines):
     hm = re.match(r'^fn (.*?)\((_1: .*|)\) -> (.*) \{$', header)
     if hm:
         args, ret = hm.group(2), hm.group(3)
         nargs = len(split_top(args)) if args else 0
     else:
-        m = re.match(r'^(const|static) (?:mut )?(.*?): (.*) = \{$', header)
-        args, nargs, ret = '', 0, (m.group(3) if m else '?')
+        ch = _const_header(header)
+        args, nargs, ret = '', 0, (ch[1] if ch else '?')
     b = Body(name, nargs, ret)
     for a in (split_top(args) if args else []):
         mm = re.match(r'^_(\d+): (.*)$', a); b.local_ty[int(mm.group(1))] = mm.group(2)
@@ -308,14 +325,14 @@ class Bodies:
         while i < n:
             ln = lines[i]
             if ln.startswith(('const ', 'static ')) and ln.endswith(';'):
-                m = re.match(r'^(?:const|static) (?:mut )?(.*?): (.*?) = const (.*);$', ln)
-                if m: self.simple[m.group(1)] = m.group(3)
+                ch = _const_header(ln)
+                if ch and ch[2].startswith('const ') : self.simple[ch[0]] = ch[2][6:-1]
             if ln.startswith(('fn ', 'const ', 'static ')) and ln.endswith('{'):
                 hm = re.match(r'^fn (.*?)\((_1: .*|)\) -> (.*) \{$', ln)
                 if hm: name = hm.group(1)
                 else:
-                    m = re.match(r'^(const|static) (?:mut )?(.*?): (.*) = \{$', ln)
-                    name = m.group(2) if m else None
+                    ch = _const_header(ln)
+                    name = ch[0] if ch else None
                 j = i + 1
                 while j < n and lines[j] != '}': j += 1
                 if name is not None: self.raw[name] = (ln, lines[i + 1:j])
